@@ -103,4 +103,20 @@ theorem codec_roundTrip (limit : Nat) : (codec limit).RoundTrip := by
 theorem ident_roundTrip : ident.RoundTrip := by
   intro x y h; simp [ident] at h
 
+/-- the toy compressor only answers with something strictly smaller than its input, which has at most `limit` bytes -/
+theorem codec_fits (limit : Nat) : ∀ x z, (codec limit).cmp x = some z → z.length ≤ limit := by
+  intro x z h
+  simp only [codec] at h
+  split at h
+  · rename_i hx
+    unfold compress at h
+    simp only [] at h
+    split at h
+    · cases h; omega
+    · cases h
+  · cases h
+
+theorem ident_fits (limit : Nat) : ∀ x z, ident.cmp x = some z → z.length ≤ limit := by
+  intro x z h; cases h
+
 end Sqfs.ToyCodec
